@@ -33,9 +33,11 @@ spec fn cursor_ok(p: Parser) -> bool { p.pos < p.token_list@.len() && p.token_li
         !(old(self).curr_tkn.kind == TokenKind::Star || old(self).curr_tkn.kind == TokenKind::EmptySet) ==> (r is None && *final(self) == *old(self)),
 //@ end
 //@ contract Parser::get_output_els ret=r
-    // ASSUMED about the opaque element parser: it leaves the cursor on a token of the list and does not touch the list
-    ensures final(self).pos < final(self).token_list@.len() && final(self).token_list == old(self).token_list,
-        // ASSUMED (read off the code: DeleteErr / MetathErr are constructed in get_output only, ExpectedArrow / ExpectedEndLine in rule only)
+    // precondition and clauses are PROVED for the real bodies of get_output_els / get_output_el in kernel `outels`
+    // (there with get_syll, get_struct, get_set, get_seg, get_var opaque)
+    requires synced(*old(self)),
+    ensures r is Ok ==> synced(*final(self)),
+        final(self).token_list == old(self).token_list,
         r matches Err(e) ==> !(e is DeleteErr) && !(e is MetathErr) && !(e is ExpectedEndLine) && !(e is ExpectedArrow),
 //@ end
 //@ attr Parser::get_output
@@ -43,19 +45,18 @@ spec fn cursor_ok(p: Parser) -> bool { p.pos < p.token_list@.len() && p.token_li
 #[verifier::loop_isolation(false)]
 //@ end
 //@ contract Parser::get_output ret=r
-    requires cursor_ok(*old(self)),
+    requires synced(*old(self)),
     ensures
         /*#follow.a_comment_may_follow_a_deletion_output C13*/ r matches Err(RuleSyntaxError::DeleteErr(t)) ==> t.kind != TokenKind::Comment,
         /*#follow.a_comment_may_follow_a_metathesis_output C13*/ r matches Err(RuleSyntaxError::MetathErr(t)) ==> t.kind != TokenKind::Comment,
         // `//` is the documented synonym of `|`: wherever `|` may follow, `//` may
         /*#follow.a_double_slash_may_follow_a_deletion_output C13*/ r matches Err(RuleSyntaxError::DeleteErr(t)) ==> t.kind != TokenKind::DubSlash,
         /*#follow.a_double_slash_may_follow_a_metathesis_output C13*/ r matches Err(RuleSyntaxError::MetathErr(t)) ==> t.kind != TokenKind::DubSlash,
-        /*#follow.get_output_keeps_the_cursor_and_the_list C02,C13*/ cursor_loose(*final(self)) && final(self).token_list == old(self).token_list,
+        /*#follow.get_output_keeps_the_cursor_and_the_list C02,C13*/ (r is Ok ==> cursor_loose(*final(self))) && final(self).token_list == old(self).token_list,
         /*#follow.get_output_raises_no_rule_level_error C13*/ r matches Err(e) ==> !(e is ExpectedEndLine) && !(e is ExpectedArrow),
 //@ end
 //@ loop Parser::get_output 0
-    invariant self.pos < self.token_list@.len() || self.curr_tkn.kind == TokenKind::Eol, self.token_list == old(self).token_list,
-        self.token_list@.len() < usize::MAX - 4, self.pos <= self.token_list@.len(),
+    invariant synced(*self), self.token_list == old(self).token_list,
 //@ end
 //@ proof_start Parser::get_output
     axiom_token_clone();
